@@ -4,6 +4,7 @@ import (
 	"bufio"
 	"bytes"
 	"context"
+	"crypto/aes"
 	"encoding/base64"
 	"errors"
 	"io"
@@ -16,7 +17,10 @@ import (
 
 const maxBytes = 1 << 20 // 1 MiB
 
-var errContentLengthExceeded = errors.New("content length exceeded")
+var (
+	errContentLengthExceeded = errors.New("content length exceeded")
+	errNotWholeBlocks        = errors.New("encrypted content is not a whole number of blocks")
+)
 
 // CryptionHandler returns a middleware to handle cryption.
 func CryptionHandler(key []byte) func(http.Handler) http.Handler {
@@ -71,6 +75,11 @@ func decryptBody(limitBytes int64, key []byte, r *http.Request) error {
 	content, err = base64.StdEncoding.DecodeString(string(content))
 	if err != nil {
 		return err
+	}
+
+	// codec.EcbDecrypt decrypts nothing unless it gets whole blocks (it hands back zero bytes)
+	if len(content)%aes.BlockSize != 0 {
+		return errNotWholeBlocks
 	}
 
 	output, err := codec.EcbDecrypt(key, content)
